@@ -85,7 +85,8 @@ def executions(steps, k, json_safe, max_exec, cap=None):
                 if j == 0:
                     vals.append(list(v))
                 elif j == 1:
-                    vals.append(list(v))
+                    # reversed order (present -> absent, long -> short, ...) in single-item blocks
+                    vals.append(list(reversed(v)))
                     parts[i] = [1] * len(v)
                 elif j == 2:
                     vals.append([])
